@@ -40,6 +40,10 @@ def c01(run, scratch):
             ok_by_m[x[0]] = ok_by_m.get(x[0], 0) + 1
     _require(all(ok_by_m.get(m, 0) > 0 for m in enc.BASE32), 'some mnemonic never produced a word')
     _judge_rows(run, rows, scratch, lambda c, row: 'DecodesToSource' in c, 'encoder')
+    # the same encoders called in one interpreter interleaved with every other encoder (16-bit ones included)
+    mrows = [x for x in enc.sweep_mixed(list(enc.ALLSIG), run.seed, 'decode') if x[0] in enc.BASE32]
+    _judge_rows(run, mrows, scratch, lambda c, row: 'DecodesToSource' in c, 'encoder, interleaved history')
+    run.coverage['interleaved_history_rows'] = len(mrows)
     trows = enc.sweep_text(enc.BASE32, run.seed, tier)
     tok = sum(1 for x in trows if x[3] == 'ok')
     _require(tok > 0.5 * len(trows), 'text front end refused most legal lines (%d of %d accepted)' % (tok, len(trows)))
@@ -132,6 +136,9 @@ def c02(run, scratch):
             ok_by_m[x[0]] = ok_by_m.get(x[0], 0) + 1
     _require(all(ok_by_m.get(m, 0) > 0 for m in cm), 'some c.* mnemonic never produced a halfword')
     _judge_rows(run, drows, scratch, lambda c, row: 'DecodesToSource' in c, 'encoder')
+    mrows = [x for x in enc.sweep_mixed(list(enc.ALLSIG), run.seed, 'decode') if x[0] in enc.CSIG]
+    _judge_rows(run, mrows, scratch, lambda c, row: 'DecodesToSource' in c, 'encoder, interleaved history')
+    run.coverage['interleaved_history_rows'] = len(mrows)
     trows = enc.sweep_text(cm, run.seed, 'thorough')
     _judge_rows(run, trows, scratch, lambda c, row: 'DecodesToSource' in c, 'text')
     accepted = {(x[0], tuple(x[1])) for x in drows + trows + rows if x[3] == 'ok'}
@@ -178,6 +185,10 @@ def c06(run, scratch):
     _require(refused > 1000 and len(rows) - refused > 1000, 'domain does not straddle the bounds')
     want = lambda c, row: c.startswith('RefusedWhenIllegal') or c == 'AcceptedWhenLegal'
     _judge_rows(run, rows, scratch, want, 'encoder')
+    # the same question with all encoders interleaved in one interpreter, in two opposite orders and grouped by spelling
+    mrows = enc.sweep_mixed(allm, run.seed, 'bounds')
+    _judge_rows(run, mrows, scratch, want, 'encoder, interleaved history')
+    run.coverage['interleaved_history_rows'] = len(mrows)
     # the same question through one-line programs (refusal must also mean: no output)
     rng = random.Random(run.seed ^ 0xc06)
     jobs = []
